@@ -140,7 +140,16 @@ def run(ctx):
     Tq = M.Terms(aq)
     argp = ("param", 1, aq.local_name(1))
     bufp = ("param", 2, aq.local_name(2))
-    ext = aq.calls_to(lambda f: M.callee_str(f) == "<std::vec::Vec<T, A> as std::iter::Extend<T>>::extend")
+    ext_all = aq.calls_to(lambda f: M.callee_str(f) == "<std::vec::Vec<T, A> as std::iter::Extend<T>>::extend")
+    # an extend(cmdline, repeat('\\').take(K)) is an emission site of K backslashes (same as a `for _ in 0..K { push('\\') }` loop), not the bare form
+    def _repeat_take(bb_, t_):
+        a_ = [M.noref(Tq.operand(x)) for x in t_["args"]]
+        src = a_[1]
+        if src[0] == "call" and src[1] == "std::iter::Iterator::take" and src[2][0][0] == "call" and src[2][0][1] == "std::iter::repeat":
+            return (a_[0], src[2][0][2][0], t_["args"][1])
+        return None
+    ext_emit = [(bb_, t_, _repeat_take(bb_, t_)) for bb_, t_ in ext_all if _repeat_take(bb_, t_)]
+    ext = [(bb_, t_) for bb_, t_ in ext_all if not _repeat_take(bb_, t_)]
     ok = len(ext) == 1
     if ok:
         eb, et = ext[0]
@@ -219,11 +228,17 @@ def run(ctx):
             if s["k"] == "assign" and s["r"]["k"] == "agg" and s["r"].get("adt") == "std::ops::Range":
                 lo, hi = [S.operand(o) for o in s["r"]["ops"]]
                 ranges.append((bb, const_of(lo), lin(hi), S.operand(s["r"]["ops"][1])))
-    ctx.floor("R20.3", "emission loops (Range constructions)", len(ranges), 3)
+    # the repeat/take form: (bb, lo=0, trip count, raw, direct=(buffer, unit))
+    ranges = [r_ + (None,) for r_ in ranges]
+    for bb_, t_, (buf_, unit_, _) in ext_emit:
+        S_take = M.noref(S.operand(t_["args"][1]))
+        cnt = S_take[2][1] if S_take[0] == "call" and len(S_take[2]) == 2 else ("unknown",)
+        ranges.append((bb_, 0, lin(cnt), cnt, (buf_, unit_)))
+    ctx.floor("R20.3", "emission sites (counted loops / repeat().take())", len(ranges), 3)
     want = {"end": (2, 0), "quote": (2, 1), "other": (1, 0)}
     seen = {}
     all_loops = M.sccs(aq)
-    for bb, lo, hi, raw in ranges:
+    for bb, lo, hi, raw, direct in ranges:
         if dominated_by_edges(aq, bb, end_t):
             cls = "end"
         elif dominated_by_edges(aq, bb, q_t) and dominated_by_edges(aq, bb, end_f):
@@ -238,6 +253,10 @@ def run(ctx):
         ctx.ob("R20.3", "backslashes[%s]" % cls, okr, aq.loc(bb),
                "%s a run of n backslashes must be emitted %s times; the loop runs over 0..%s = %s*n+%s" % (
                    names.get(cls, cls), {"end": "2n", "quote": "2n+1", "other": "n"}.get(cls, "?"), M.term_str(raw)[:60], hi[0] if hi else "?", hi[1] if hi else "?"))
+        if direct is not None:
+            okb = direct[0] == bufp and const_of(direct[1]) == 0x5C
+            ctx.ob("R20.3", "emits-backslash[%s]" % cls, okb, aq.loc(bb), "the repeated unit appended to the command line is '\\\\'")
+            continue
         # the loop body pushes '\\': body = blocks between the Some edge of this Range's `next` and the next `next`
         drv = None
         first_reach = aq.reachable(bb)
@@ -245,7 +264,7 @@ def run(ctx):
             t2 = aq.blocks[b2]["term"]
             if t2["k"] == "call" and "Range" in M.callee_str(t2["f"]) and M.callee_str(t2["f"]).endswith("::next"):
                 # the first driver reached from the construction without crossing another Range construction
-                others = [r_[0] for r_ in ranges if r_[0] != bb]
+                others = [r_[0] for r_ in ranges if r_[0] != bb and r_[4] is None]
                 if b2 in aq.reachable(bb, removed_blocks=others):
                     if drv is None or b2 in aq.reachable(bb, stop_blocks=[drv]) and drv not in aq.reachable(bb, stop_blocks=[b2]):
                         drv = b2
